@@ -34,6 +34,16 @@ Record sites := {
   s_obs : list (string * string)         (* site kind -> observed matrix ('1' accepted / in range, '0' not, 'E' error) *)
 }.
 
+(* several quantifiers in ONE action (harness/props/c06.py:quant_domain_text): each action a<i> has the shape qa_shape and
+   its j-th quantifier ranges over the type (nth j qa_types); qa_obs = one row of bits over q_ents per quantifier *)
+Record qaction := { qa_name : string; qa_shape : string; qa_types : list string; qa_obs : string }.
+Record quant := {
+  q_text : string;                       (* the domain text, escaped *)
+  q_objs : list (string * string);       (* problem objects in file order: name -> type *)
+  q_ents : list (string * string);       (* the objects, then the constants k<T>: everything a quantifier can range over *)
+  q_acts : list qaction
+}.
+
 Record case := {
   c_groups : list group;
   c_trailing : list string;
@@ -41,7 +51,8 @@ Record case := {
   c_types : obs string;                  (* sorted keys of Domain.types joined by ',' - or the parse raised *)
   c_table : string;                      (* all-pairs is_sub_type matrix over c_names; "" when raised *)
   c_edges : string;                      (* create_type_hierarchy_graph: sorted 'child<parent' joined by ','; "" when raised *)
-  c_sites : option sites
+  c_sites : option sites;
+  c_quant : option quant
 }.
 
 Definition the_decls (c : case) : list decl := decls (c_groups c) (c_trailing c).
@@ -172,6 +183,84 @@ Definition model_sites (c : case) (s : sites) : list (string * string) :=
                            else matrix (c_names c) (model_site d s (c_names c) (fst ko)))) (s_obs s)
   end.
 
+(* ---------- several quantifiers in one action ---------- *)
+Definition digit_of (j : nat) : string :=
+  match j with 0 => "1" | 1 => "2" | 2 => "3" | 3 => "4" | _ => "9" end.
+(* every (m<k> e) for k <= rows and e in the entities, except (m<j> e) for skip = Some (j, e) (j counted from 0) *)
+Definition q_state (q : quant) (rows : nat) (skip : option (nat * string)) : state :=
+  {| facts := flat_map (fun k => flat_map (fun e =>
+                 match skip with
+                 | Some (j, x) => if Nat.eqb j k && String.eqb x (fst e) then [] else [("m" +++ digit_of k, [fst e])]
+                 | None => [("m" +++ digit_of k, [fst e])]
+                 end) (q_ents q)) (seq 0 rows);
+     fluents := [] |}.
+
+Definition q_app (d : mdomain) (q : quant) (act : string) (st : state) : result bool :=
+  match dget (d_actions d) act with
+  | None => Err EKey
+  | Some a => do ga <- ground_action d a [];
+              is_applicable d eps0 (Some (pipeline_objects d (q_objs q))) ga st
+  end.
+Definition q_succ (d : mdomain) (q : quant) (act : string) (st : state) : result state :=
+  match dget (d_actions d) act with
+  | None => Err EKey
+  | Some a => do ga <- ground_action d a [];
+              apply_op d eps0 ga (Some (pipeline_objects d (q_objs q))) false false
+                       (seq 0 (List.length (ga_groups ga))) (seq 0 (List.length (ma_univ a))) st
+  end.
+
+Fixpoint seq_results {A} (l : list (result A)) : result (list A) :=
+  match l with
+  | [] => Ok []
+  | Ok x :: r => match seq_results r with Ok xs => Ok (x :: xs) | Err k => Err k end
+  | Err k :: _ => Err k
+  end.
+Definition rows_text (rs : result (list (list bool))) : string :=
+  match rs with
+  | Ok rows => join "|" (map (fun row => t2s (map bit row)) rows)
+  | Err _ => "E"
+  end.
+
+Definition model_qaction (d : mdomain) (q : quant) (a : qaction) : string :=
+  let n := List.length (qa_types a) in
+  let sh := qa_shape a in
+  let per (f : nat -> string -> result bool) : result (list (list bool)) :=
+    seq_results (map (fun j => seq_results (map (fun e => f j (fst e)) (q_ents q))) (seq 0 n)) in
+  if String.eqb sh "eff" then
+    rows_text (do st <- q_succ d q (qa_name a) (q_state q n None);
+               per (fun j e => Ok (atom_in ("hit" +++ digit_of j, [e]) (facts st))))
+  else if String.eqb sh "pre" || String.eqb sh "npre" then
+    rows_text (per (fun j e => do b <- q_app d q (qa_name a) (q_state q n (Some (j, e))); Ok (negb b)))
+  else if String.eqb sh "when" then
+    rows_text (per (fun j e => do st <- q_succ d q (qa_name a) (q_state q n (Some (j, e)));
+                               Ok (negb (atom_in ("fin", ["kobject"]) (facts st)))))
+  else if String.eqb sh "neff" then
+    rows_text (do st <- q_succ d q (qa_name a) (q_state q n None);
+               do row2 <- seq_results (map (fun e =>
+                             do st2 <- q_succ d q (qa_name a) (q_state q n (Some (1, fst e)));
+                             Ok (negb (existsb (fun f => String.eqb (fst f) "hit1") (facts st2)))) (q_ents q));
+               Ok [map (fun e => atom_in ("hit1", [fst e]) (facts st)) (q_ents q); row2])
+  else "?".
+
+Definition quant_domain (q : quant) : result mdomain :=
+  do e <- parse MFile (unesc (q_text q)); parse_domain (fun _ => None) e.
+Definition model_quant (q : quant) : list string :=
+  match quant_domain q with
+  | Err _ => map (fun _ => "") (q_acts q)
+  | Ok d => map (model_qaction d q) (q_acts q)
+  end.
+
+(* the spec: the j-th quantifier of an action touches the entity e exactly when e's declared type is a subtype of the
+   j-th quantified type; for the nested shapes the inner quantifier is evaluated once per object of the outer one *)
+Definition spec_qaction (ds : list decl) (q : quant) (a : qaction) : string :=
+  let inr (j : nat) (e : string * string) : bool := closure_b ds (snd e) (nth j (qa_types a) "?") in
+  let nonempty (j : nat) : bool := existsb (inr j) (q_ents q) in
+  let sh := qa_shape a in
+  let row (f : string * string -> bool) : string := t2s (map (fun e => bit (f e)) (q_ents q)) in
+  if String.eqb sh "npre" then join "|" [row (inr 0); row (fun e => inr 1 e && nonempty 0)]
+  else if String.eqb sh "neff" then join "|" [row (inr 0); row (fun e => if nonempty 0 then inr 1 e else true)]
+  else join "|" (map (fun j => row (inr j)) (seq 0 (List.length (qa_types a)))).
+
 (* the text really contains the section the spec is asked about *)
 Fixpoint sexps_eqb (a b : list sexp) : bool :=
   match a, b with
@@ -187,6 +276,13 @@ Definition types_body (e : sexp) : option (list sexp) :=
       | _ => None
       end
   | _ => None
+  end.
+Definition text_consistent_q (c : case) (q : quant) : bool :=
+  match parse MFile (unesc (q_text q)) with
+  | Ok e => match types_body e with
+            | Some b => sexps_eqb b (render (c_groups c) (c_trailing c))
+            | None => false end
+  | Err _ => false
   end.
 Definition text_consistent (c : case) (s : sites) : bool :=
   match parse MFile (unesc (s_text s)) with
@@ -237,6 +333,10 @@ Definition spec_ok (c : case) : bool :=
     match c_sites c with
     | None => true
     | Some s => forallb (fun ko => negb (judged_kind (fst ko)) || String.eqb (spec_site c (fst ko)) (snd ko)) (s_obs s)
+    end &&
+    match c_quant c with
+    | None => true
+    | Some q => forallb (fun a => String.eqb (spec_qaction (the_decls c) q a) (qa_obs a)) (q_acts q)
     end
   else if is_cyclic c && nodup_b (map fst (the_decls c)) then
     match c_types c with Raised => true | Returned _ => false end
@@ -251,6 +351,12 @@ Definition agree (c : case) : bool :=
   | Some s =>
       text_consistent c s &&
       forallb (fun mo => String.eqb (snd (fst mo)) (snd (snd mo))) (combine (model_sites c s) (s_obs s))
+  end &&
+  match c_quant c with
+  | None => true
+  | Some q =>
+      text_consistent_q c q &&
+      forallb (fun mo => String.eqb (fst mo) (qa_obs (snd mo))) (combine (model_quant q) (q_acts q))
   end.
 
 (* D30 (quantifiers never ranged over the domain's constants) is repaired in /repo: the constant-quantification kinds
@@ -260,13 +366,18 @@ Definition known_class (c : case) : bool := false.
 (* compact literal of a case without sites: the names the tables range over are the section's type names *)
 Definition tc (gs : list group) (tr : list string) (types : obs string) (table edges : string) : case :=
   let c0 := {| c_groups := gs; c_trailing := tr; c_names := []; c_types := types; c_table := table;
-               c_edges := edges; c_sites := None |} in
+               c_edges := edges; c_sites := None; c_quant := None |} in
   {| c_groups := gs; c_trailing := tr; c_names := spec_names c0; c_types := types; c_table := table;
-     c_edges := edges; c_sites := None |}.
+     c_edges := edges; c_sites := None; c_quant := None |}.
 
 Definition judge (c : case) : verdict := {| v_agree := agree c; v_ok := spec_ok c; v_known := known_class c |}.
 Definition run (cases : list case) : string := summary judge cases.
 
 Definition explain (c : case) :=
   (model_types c, model_matrix c, model_edges c, join "," (spec_names c), spec_matrix c, spec_edges c, (is_forest c, is_cyclic c),
-   match c_sites c with Some s => (text_consistent c s, model_sites c s) | None => (true, []) end).
+   match c_sites c with Some s => (text_consistent c s, model_sites c s) | None => (true, []) end,
+   match c_quant c with
+   | Some q => (text_consistent_q c q,
+                map (fun a => (qa_name a, qa_shape a, qa_types a, spec_qaction (the_decls c) q a)) (q_acts q), model_quant q)
+   | None => (true, [], [])
+   end).
